@@ -18,7 +18,7 @@ ELS = {1: "deuterium", 2: "helium", 6: "carbon", 10: "neon"}
 _SCENES = {}
 
 
-def scene(mix, shape, D, step_cm=50):
+def scene(mix, shape, D, step_cm=50, flow=(0, 0, 0)):
     from raysect.core import Vector3D, translate, rotate_y, rotate_z
     from raysect.optical import World
     from cherab.core import Plasma, Species, Beam
@@ -27,7 +27,7 @@ def scene(mix, shape, D, step_cm=50):
     from cherab.core.distribution import Maxwellian
     from cherab.core.math import Constant3D, ConstantVector3D
     from cherab.core.model import SingleRayAttenuator
-    key = json.dumps([mix, shape, step_cm])
+    key = json.dumps([mix, shape, step_cm, list(flow)])
     if key in _SCENES:
         return _SCENES[key]
     calls = []
@@ -38,7 +38,7 @@ def scene(mix, shape, D, step_cm=50):
         def evaluate(self, e, n, t):
             calls.append((self.name, float(e), float(n), float(t)))
             a, c, _ = coeff[self.name]
-            return (a + c * n / NU) * US
+            return (a + c * n / NU) * US * (e / ENERGY)        # proportional to the interaction energy
 
     class A(AtomicData):
         def beam_stopping_rate(self, b, p, q): return Stop(p.name)
@@ -48,10 +48,15 @@ def scene(mix, shape, D, step_cm=50):
     zero = ConstantVector3D(Vector3D(0, 0, 0))
     pl.b_field = zero
     pl.electron_distribution = Maxwellian(Constant3D(1e19), Constant3D(100.0), zero, 9.1093837015e-31)
-    pl.composition = [Species(getattr(E, ELS[zc]), zc, Maxwellian(Constant3D(n * NU), Constant3D(TI), zero, getattr(E, ELS[zc]).atomic_weight * 1.66053906660e-27))
+    xf = translate(0.3, -0.2, 0.1) * rotate_y(35) * rotate_z(20)
+    from scipy import constants as K
+    vb = math.sqrt(2 * ENERGY * K.e / K.atomic_mass)
+    # ion bulk velocity: flow (in tenths of the beam speed, beam frame) expressed in the plasma frame
+    vion = ConstantVector3D(Vector3D(*[f * vb / 10.0 for f in flow]).transform(xf))
+    pl.composition = [Species(getattr(E, ELS[zc]), zc, Maxwellian(Constant3D(n * NU), Constant3D(TI), vion, getattr(E, ELS[zc]).atomic_weight * 1.66053906660e-27))
                       for zc, n, a, c in mix]
     sg, tx, ty, L, clamp, cs = shape
-    beam = Beam(parent=world, transform=translate(0.3, -0.2, 0.1) * rotate_y(35) * rotate_z(20))
+    beam = Beam(parent=world, transform=xf)
     beam.plasma = pl
     beam.atomic_data = A()
     beam.energy, beam.power, beam.element = ENERGY, POWER, E.deuterium
@@ -70,14 +75,15 @@ def replay(rec, ctx):
     from scipy import constants as K
     from cherab.core.atomic import deuterium
     D = rec["D"]
-    beam, calls = scene(rec["mix"], rec["shape"], D, rec["step_cm"])
+    beam, calls = scene(rec["mix"], rec["shape"], D, rec["step_cm"], tuple(rec.get("flow", (0, 0, 0))))
+    efac = rec["efac"][0] / rec["efac"][1] if "efac" in rec else 1.0
     x, y, z = rec["x"] / D, rec["y"] / D, rec["z"] / D
     viol = []
     nsp = len(rec["mix"])
     tag = f"{nsp}-species"
 
     def bad(what, detail):
-        viol.append({"sig": f"{tag}:{what}", "detail": f"{detail} | step={rec['step_cm']}cm mix={rec['mix']} shape={rec['shape']} point=({x},{y},{z})"})
+        viol.append({"sig": f"{tag}:{what}", "detail": f"{detail} | step={rec['step_cm']}cm flow={rec.get('flow')} mix={rec['mix']} shape={rec['shape']} point=({x},{y},{z})"})
     try:
         got = beam.density(x, y, z)
     except Exception as ex:         # noqa: BLE001
@@ -91,7 +97,7 @@ def replay(rec, ctx):
         v = math.sqrt(2 * ENERGY * K.e / K.atomic_mass)
         rate = POWER / (ENERGY * deuterium.atomic_weight * K.e)
         sx2, sy2 = rec["sx2"] / D ** 4, rec["sy2"] / D ** 4
-        s_phys = rec["S"] * NU * US
+        s_phys = rec["S"] * NU * US * efac
         want = rate / v * math.exp(-s_phys * z / v) * math.exp(-0.5 * (x * x / sx2 + y * y / sy2)) / (2 * math.pi * math.sqrt(sx2 * sy2))
         # between attenuation nodes the code interpolates the density linearly: relative error <= (S step / v)^2 / 8
         h = rec["shape"][3] / D / (rec["nbeam"] - 1)          # node spacing of the attenuation table (spec: NBeam)
@@ -103,8 +109,8 @@ def replay(rec, ctx):
     z2n = rec["z2n"]
     for name, e, n, t in calls[:200]:
         zi = [zc for zc, *_ in rec["mix"] if ELS[zc] == name][0]
-        if not (core.close(e, ENERGY, rtol=1e-9) and core.close(n, z2n * NU / zi, rtol=1e-9) and core.close(t, TI, rtol=1e-12)):
-            bad("stopping-rate-evaluated-at-wrong-arguments", f"{name}: (E, n_eq, T) = ({e}, {n}, {t}) vs ({ENERGY}, {z2n * NU / zi}, {TI})")
+        if not (core.close(e, ENERGY * efac, rtol=1e-9) and core.close(n, z2n * NU / zi, rtol=1e-9) and core.close(t, TI, rtol=1e-12)):
+            bad("stopping-rate-evaluated-at-wrong-arguments", f"{name}: (E, n_eq, T) = ({e}, {n}, {t}) vs ({ENERGY * efac}, {z2n * NU / zi}, {TI})")
             break
     del calls[:]
     # direction field
@@ -142,6 +148,7 @@ INVARIANT Monotone
 INVARIANT NoStoppingConservesFlux
 INVARIANT Streamline
 INVARIANT SpacingAtMostStep
+INVARIANT FlowSlowsOrKeeps
 INVARIANT EmitCase
 """
 
@@ -161,7 +168,7 @@ def run(v):
             v.violation(x["sig"], x["detail"], r)
     for x in extra_checks(v):
         v.violation(x["sig"], x["detail"], None)
-    v.add_cases(len(cases) + 2, keys=[json.dumps([r["mix"], r["shape"], r["x"], r["y"], r["z"], r["step_cm"]]) for r in cases])
+    v.add_cases(len(cases) + 2, keys=[json.dumps([r["mix"], r["shape"], r["x"], r["y"], r["z"], r["step_cm"], r["flow"]]) for r in cases])
     v.sample(next(r for r in cases if r["class"] == "value" and len(r["mix"]) == 3 and r["x"]))
     v.assumptions += ["uniform plasma along the beam (the attenuation integral is exact); spatially varying profiles are exercised through the C01 scenes (attenuator step sensitivity) only",
                       "mock stopping rates a_i + c_i n_eq, ions at rest; CODATA constants; attenuator steps 0.5, 0.3 and 0.07 m (the last two do not divide the beam lengths); off-node points within the linear-interpolation bound"]
